@@ -8,6 +8,8 @@ package webrtc
 
 import (
 	"fmt"
+	"sort"
+	"strings"
 	"sync"
 	"testing"
 	"time"
@@ -87,6 +89,72 @@ func (p *viPeer) snapshot() []vkM {
 	return out
 }
 
+// openRace: a channel that CreateDataChannel has just appended to the transport's list is opened by two
+// goroutines at once, the way CreateDataChannel (transport connected) and SCTPTransport.Start (channel among
+// the pending ones) do when they meet. Returns the different ids the channel was seen with and how many ids
+// the allocator handed out.
+func (p *viPeer) openRace(n int) ([]int, int) {
+	pc := p.pc
+	d, err := pc.api.newDataChannel(&DataChannelParameters{Label: fmt.Sprintf("race%d", n), Ordered: true}, nil, pc.log)
+	if err != nil {
+		return []int{}, 0
+	}
+	pc.sctpTransport.lock.Lock()
+	before := len(pc.sctpTransport.dataChannelIDsUsed)
+	pc.sctpTransport.dataChannels = append(pc.sctpTransport.dataChannels, d)
+	pc.sctpTransport.dataChannelsRequested++
+	pc.sctpTransport.lock.Unlock()
+	seen := map[int]bool{}
+	var mu sync.Mutex
+	stop := make(chan struct{})
+	var watch sync.WaitGroup
+	watch.Add(1)
+	go func() {
+		defer watch.Done()
+		for {
+			if v := d.ID(); v != nil {
+				mu.Lock()
+				seen[int(*v)] = true
+				mu.Unlock()
+			}
+			select {
+			case <-stop:
+				return
+			default:
+			}
+		}
+	}()
+	// both openers wait behind the ICE transport's lock (open reads the DTLS role through it), then go together
+	pc.iceTransport.lock.Lock()
+	var wg sync.WaitGroup
+	for i := 0; i < 2; i++ {
+		wg.Add(1)
+		go func() {
+			defer wg.Done()
+			_ = d.open(pc.sctpTransport)
+		}()
+	}
+	time.Sleep(2 * time.Millisecond)
+	pc.iceTransport.lock.Unlock()
+	wg.Wait()
+	time.Sleep(time.Millisecond)
+	close(stop)
+	watch.Wait()
+	if v := d.ID(); v != nil {
+		seen[int(*v)] = true
+	}
+	pc.sctpTransport.lock.Lock()
+	taken := len(pc.sctpTransport.dataChannelIDsUsed) - before
+	pc.sctpTransport.lock.Unlock()
+	p.add(d, false, "local")
+	ids := []int{}
+	for v := range seen {
+		ids = append(ids, v)
+	}
+	sort.Ints(ids)
+	return ids, taken
+}
+
 func (p *viPeer) allocs() []int {
 	p.mu.Lock()
 	defer p.mu.Unlock()
@@ -127,9 +195,11 @@ func viRun(t *testing.T, tr *vkTrace, bh viBehaviour) { //nolint:cyclop
 		defer p.pc.dtlsTransport.lock.RUnlock()
 		return p.pc.dtlsTransport.role().String()
 	}
+	race, raceIds, taken := false, []int{}, 0
 	emit := func(step string) {
 		for _, p := range []*viPeer{a, b} {
 			tr.Emit(vkM{"ev": "ids", "t": bh.ID, "who": p.name, "role": role(p), "chans": p.snapshot(), "alloc": p.allocs(), "connected": connected,
+				"race": race && strings.HasPrefix(step, "openRace("+p.name), "raceIds": raceIds, "taken": taken,
 				"sig": fmt.Sprintf("ids(%s,%s,after=%s)", p.name, role(p), step)})
 		}
 	}
@@ -240,6 +310,13 @@ func viRun(t *testing.T, tr *vkTrace, bh viBehaviour) { //nolint:cyclop
 				}
 				time.Sleep(time.Millisecond)
 			}
+		case "openRace":
+			if connected {
+				raceIds, taken = who(st.Who).openRace(labels)
+				labels++
+				race = true
+			}
+			desc = fmt.Sprintf("openRace(%s)", st.Who)
 		case "allocBurst":
 			if connected {
 				// the model takes k ids; the real allocator is asked by 8 goroutines, k times each
@@ -260,6 +337,8 @@ func viRun(t *testing.T, tr *vkTrace, bh viBehaviour) { //nolint:cyclop
 		}
 		settle()
 		emit(desc)
+		tr.Flush() // a channel opened twice ends in a double close: keep what was recorded
+		race = false
 	}
 	if bh.Burst > 0 && connected {
 		var wg sync.WaitGroup
